@@ -3,8 +3,8 @@
 From Coq Require Import String Ascii.
 From Coq Require Import List Arith Bool.
 Require Import TT.Model.Base TT.Model.Str TT.Model.C07TypeParse TT.Model.C07Harvest TT.Model.C07Worklist TT.Model.C07Reach TT.Model.Topo.
-Require Import TT.Spec.C07Spec TT.Spec.C07Known TT.Spec.C09Spec TT.Spec.C09Known.
-Require Import TT.Proofs.TopoProofs TT.Proofs.C20Extra TT.Proofs.C09Proofs TT.Proofs.C09Acyclic TT.Proofs.C07Lift TT.Proofs.C09Full TT.Proofs.C07Total TT.Proofs.C09Witness.
+Require Import TT.Spec.TsModule TT.Spec.TsObs TT.Spec.C07Spec TT.Spec.C07Known TT.Spec.C09Spec TT.Spec.C09Known TT.Model.C09Module.
+Require Import TT.Proofs.TopoProofs TT.Proofs.C20Extra TT.Proofs.C09Proofs TT.Proofs.C09Acyclic TT.Proofs.C07Lift TT.Proofs.C09Full TT.Proofs.C07Total TT.Proofs.C09Oracle TT.Proofs.C09ModuleProofs TT.Proofs.C09Witness.
 Import ListNotations.
 
 (* For every iteration order of every hash collection and every project of the documented feature set
@@ -20,6 +20,31 @@ Theorem C09_decl_before_use : forall (o : orders) (p : project) (out : list str)
   acyclic (spec_graph p) -> emitted_zod o p = Some out ->
   NoDup out /\ forall u v, In u out -> In v out -> In v (schema_refs p u) -> idx_before out v u.
 Proof. exact zod_order_full. Qed.
+
+(* the whole module: struct and enum schemas in the emitted order, then one parameter schema per command with
+   parameters (generate_types_file_content, types.ts.tera), each with the identifiers of its right-hand side as
+   rendered by the Zod schema builder (renderer model of C10). The run-time oracle accepts the model's module:
+   no constant is read before its definition and every parameter schema follows every struct and enum schema. *)
+Theorem C09_module_decl_before_use : forall (o : orders) (p : project) cs,
+  ord_ok o -> in_domain p = true ->
+  kf_c07_field_result p = false -> kf_c07_odd_name p = false -> kf_c07_inline_mod p = false ->
+  acyclic (spec_graph p) -> no_params_suffix p = true ->
+  zod_consts o p = Some cs -> decl_before_use cs = true.
+Proof. intros o p cs Ho Hd K5 K6 K7 Hac Hnp H. exact (module_decl_before_use o Ho p Hd K5 K6 K7 Hac Hnp cs H). Qed.
+
+(* reflection of the run-time oracle *)
+Theorem C09_oracle_exact : forall cs, decl_before_use cs = true <-> DeclBeforeUse cs /\ ParamsLast cs.
+Proof. exact c09_oracle_exact. Qed.
+
+(* the identifiers the rendered schema of a field type mentions are z and exactly the schema names of the
+   custom names of its TypeStructure, wherever they are nested (structural induction over the renderer) *)
+Theorem C09_schema_identifiers : forall t k,
+  (forall x, In x (ex_ids [] (TT.Model.C10Zod.zex_of [] (conv t) k)) -> x = L "z" \/ exists n, In n (ts_names t) /\ x = schema_name n) /\
+  (forall n, In n (ts_names t) -> In (schema_name n) (ex_ids [] (TT.Model.C10Zod.zex_of [] (conv t) k))).
+Proof. exact zex_ids. Qed.
+Theorem C09_struct_identifiers : forall p n x,
+  In x (struct_ids p n) <-> x = L "z" \/ exists m, In m (schema_refs p n) /\ x = schema_name m.
+Proof. exact struct_ids_refs. Qed.
 
 (* outside the classes every schema reference to a defined type is a recorded dependency *)
 Theorem C09_edges_recorded : forall p, in_domain p = true ->
@@ -91,12 +116,19 @@ Example C09_ex_premises :
 Proof. exact sample_premises. Qed.
 Example C09_ex_type_graph : agree_b sample_dag = true /\ acyclic (spec_graph sample_dag).
 Proof. split; [vm_compute; reflexivity|]. apply (rank_acyclic _ sample_rank). apply rank_check. vm_compute. reflexivity. Qed.
+Example C09_ex_module : no_params_suffix sample_dag = true /\
+  exists cs, zod_consts o_default sample_dag = Some cs /\ List.length cs = 9 /\ decl_before_use cs = true.
+Proof. split; [vm_compute; reflexivity|]. eexists. split; [vm_compute; reflexivity|]. split; vm_compute; reflexivity. Qed.
 Example C09_ex_oracle : decl_before_use [(L "ASchema", [L "z"]); (L "BSchema", [L "z"; L "ASchema"]); (L "FParamsSchema", [L "BSchema"])] = true
   /\ decl_before_use [(L "BSchema", [L "z"; L "ASchema"]); (L "ASchema", [L "z"])] = false
   /\ decl_before_use [(L "FParamsSchema", [L "z"]); (L "ASchema", [L "z"])] = false.
 Proof. repeat split; vm_compute; reflexivity. Qed.
 
 Print Assumptions C09_decl_before_use.
+Print Assumptions C09_module_decl_before_use.
+Print Assumptions C09_oracle_exact.
+Print Assumptions C09_schema_identifiers.
+Print Assumptions C09_struct_identifiers.
 Print Assumptions C09_edges_recorded.
 Print Assumptions C09_decl_before_use_recorded_graph.
 Print Assumptions C09_decl_before_use_type_graph.
